@@ -85,7 +85,7 @@ def _run_item(args):
     _ensure_process(mod)
     if isinstance(item, dict):  # a fixed case
         case = item
-        run_seed = case.get("run_seed", 0)
+        run_seed = case.get("_fixed_id") or case.get("run_seed", 0)
     else:
         run_seed = item
         case = mod.gen_case(run_seed, tier)
@@ -167,7 +167,9 @@ def run_property(mod, tier: str, seed: int, replay: str | None = None, runs_over
     import glob
 
     for f in sorted(glob.glob(str(simkit.VERIF / "regressions" / f"{prop}-*.json"))):
-        fixed.append(json.loads(open(f).read())["case"])
+        c = dict(json.loads(open(f).read())["case"])
+        c["_fixed_id"] = "reg:" + os.path.basename(f)
+        fixed.append(c)
     items = fixed + items + seeds[:k_self][::-1]
 
     results, problems = simkit.run_pool(
